@@ -1,28 +1,29 @@
 #!/bin/bash
 # tools/mutws.sh <name> <patch.diff> <tier> <prop> [<prop>...]
-# Runs checks against a MUTATED copy of kanidm without touching /repo: makes a git worktree of
-# /repo HEAD under /tmp/mutws/<name>/repo, applies the patch there, copies the harness sources to
-# /tmp/mutws/<name>/harness with its path dependencies pointed at that worktree (own target dir,
-# warm-started from /verif/harness/target), runs the engines with VERIF_ROOT=/tmp/mutws/<name>/root
-# (a copy of known_findings.json + pyref), prints the verdict lines, and removes everything.
+# Runs checks against a MUTATED copy of kanidm without touching /repo: a git worktree of /repo HEAD
+# at the fixed path /tmp/mutws/repo gets the patch applied, the harness sources are copied to
+# /tmp/mutws/harness with their path dependencies pointed at that worktree, and the engines are
+# built in the persistent target dir /tmp/mutws-target (same paths every time, so only what the
+# patch touches is recompiled). VERIF_ROOT=/tmp/mutws/root (copy of known_findings.json + pyref).
+# Sequential use only (flock). Prints the verdict lines; removes the worktree afterwards.
 set -u
 name="$1"; patch="$2"; tier="$3"; shift 3
-W=/tmp/mutws/$name
-rm -rf "$W"; mkdir -p "$W/root/evidence"
+exec 9>/tmp/mutws.lock; flock 9
+W=/tmp/mutws
+git -C /repo worktree remove --force "$W/repo" 2>/dev/null; rm -rf "$W"; mkdir -p "$W/root/evidence" /tmp/mutws-target
 git -C /repo worktree prune
 git -C /repo worktree add -q --detach "$W/repo" HEAD || exit 2
-if ! git -C "$W/repo" apply "$patch"; then echo "MUTWS patch does not apply"; git -C /repo worktree remove --force "$W/repo"; rm -rf "$W"; exit 2; fi
+if ! git -C "$W/repo" apply "$patch"; then echo "[$name] MUTWS patch does not apply"; git -C /repo worktree remove --force "$W/repo"; exit 2; fi
 mkdir -p "$W/harness"
 ( cd /verif/harness && tar cf - --exclude='./target*' --exclude='./miri' . ) | ( cd "$W/harness" && tar xf - )
 for f in $(grep -rl '"/repo/' "$W/harness" --include=*.rs --include=Cargo.toml 2>/dev/null | sort -u); do sed -i "s#\"/repo/#\"$W/repo/#g" "$f"; done
-cp -a /verif/harness/target "$W/harness/target" 2>/dev/null
 cp /verif/known_findings.json "$W/root/"; cp -r /verif/pyref "$W/root/" 2>/dev/null
 engine_of() { grep -E "^\s+[C0-9|]*\b$1\b[C0-9|]*\) echo" /verif/check | sed -E 's/.*echo ([a-z0-9]+);;.*/\1/' | head -1; }
 rc=0
 for p in "$@"; do
   e=$(engine_of "$p")
-  if ! ( cd "$W/harness" && cargo build --offline -p "$e" >"$W/build.log" 2>&1 ); then echo "[$name $p] MUTWS BUILD FAILED"; tail -15 "$W/build.log"; rc=2; continue; fi
-  VERIF_ROOT="$W/root" VERIF_SCRATCH="$W/scratch" KANIDM_DEV_YOLO=1 RUST_LOG=off timeout 3000 "$W/harness/target/debug/$e" "$p" --tier "$tier" --seed "${VERIF_SEED:-1}" 2>/dev/null | grep -E "^(SUMMARY|VIOLATION|INCONCLUSIVE|KNOWN-FINDING)" | cut -c1-260 | sed "s/^/[$name $p] /"
+  if ! ( cd "$W/harness" && CARGO_TARGET_DIR=/tmp/mutws-target cargo build --offline -p "$e" >"$W/build.log" 2>&1 ); then echo "[$name $p] MUTWS BUILD FAILED"; tail -15 "$W/build.log"; rc=2; continue; fi
+  VERIF_ROOT="$W/root" VERIF_SCRATCH="$W/scratch" KANIDM_DEV_YOLO=1 RUST_LOG=off timeout 3000 "/tmp/mutws-target/debug/$e" "$p" --tier "$tier" --seed "${VERIF_SEED:-1}" 2>/dev/null | grep -E "^(SUMMARY|VIOLATION|INCONCLUSIVE|KNOWN-FINDING)" | cut -c1-260 | sed "s/^/[$name $p] /"
 done
-git -C /repo worktree remove --force "$W/repo"; rm -rf "$W"
+git -C /repo worktree remove --force "$W/repo"
 exit $rc
